@@ -111,6 +111,7 @@ def acceptKey (key : List Nat) : List Nat :=
 
 /-- Which check of `from_request` failed (each is `HttpError::for_bad_request`). -/
 inductive HsErr where
+  | oldHttp               -- "websocket upgrade requires HTTP/1.1" (repair of K20a)
   | noConnectionUpgrade   -- "expected connection upgrade"
   | noUpgradeWebsocket    -- "unexpected protocol for upgrade"
   | badVersion            -- "missing or invalid websocket version"
@@ -165,6 +166,19 @@ def respond (hdrs : Headers) : Response :=
 
 /-- The connection is handed to the channel handler iff the answer is 101. -/
 def upgraded (hdrs : Headers) : Bool := (respond hdrs).status == 101
+
+/-- `from_request` including its first check (repair of K20a):
+`request.version() < HTTP/1.1` is refused before any header is looked at.
+`http11` says whether the request's version is HTTP/1.1 or later; `handshake`
+is the rest of the function, i.e. the HTTP/1.1 case. -/
+def handshakeReq (http11 : Bool) (hdrs : Headers) : Except HsErr (List Nat) :=
+  if !http11 then .error .oldHttp else handshake hdrs
+
+/-- The channel endpoint's answer to a request of the given HTTP version. -/
+def respondReq (http11 : Bool) (hdrs : Headers) : Response :=
+  match handshakeReq http11 hdrs with
+  | .ok a => switching a
+  | .error e => { status := e.status, headers := [] }
 
 /-! ### The specification: RFC 7230 lists, RFC 6455 §4.2.1 -/
 
